@@ -441,6 +441,16 @@ class Check(PropCheck):
                 e = '//%s[@title = "%s"]' % (name, lit)
                 seen.add(e)
                 pool.append(e)
+        if rng.random() < 0.6 and n >= 8:
+            # a constant the compiler folds (2 * 3, 1 + 1) as the LEFT operand of an operator whose right side is known per element
+            # only: the folded constant lives in the compiled form that the cache shares — evaluating must not change it
+            name = rng.choice(['*', 'p', 'span', 'div', 'b'])
+            for e in rng.sample(['//%s[2 * 3 - @n = 4]', '//%s[1 + 1 + @n = 4]', '//%s[(1 + 1) * @n = 4]', '//%s[2 * 3 - @n > 1]',
+                                 '//%s[10 div 5 + @n = 5]'], 2):
+                e = e % name
+                if e not in seen:
+                    seen.add(e)
+                    pool.append(e)
         while len(pool) < n:
             r = rng.random()
             if r < 0.7:
